@@ -207,7 +207,7 @@ def generate(rng, tier, idx):
     else:
         # long content crossing the reader's default chunk size (1024) and TextIOWrapper's 8192 chunk
         sc['level'] = rng.choice(['text', 'utf-8'])
-        target = rng.choice([1020, 1024, 1030, 2050])
+        target = rng.choice([1020, 1024, 1030, 2050, 1020, 1024, 1030, 2050, 8190, 8200, 16390])     # around the reader's chunk size and TextIOWrapper's 8192-byte decode chunk
         unit = gen_text(rng, rng.choice([3, 7, 40, 300]))
         text = (unit * (target // max(1, len(unit)) + 1))[:target] + gen_text(rng, 8)
         sc['text'] = text
@@ -229,19 +229,33 @@ def generate(rng, tier, idx):
     if n <= limit:
         sc['partitions'] = 'all'
     else:
-        count = 96 if n < 100 else 12
+        count = 96 if n < 100 else (12 if n < 4000 else 2)
         parts = set()
         parts.add(tuple([n]))
-        parts.add(tuple([1] * n))
-        for _ in range(count):
-            parts.add(tuple(random_composition(rng, n)))
+        if n < 4000:
+            parts.add(tuple([1] * n))
+            for _ in range(count):
+                parts.add(tuple(random_composition(rng, n)))
+        else:
+            # several KiB: a few schedules of mostly large pieces (what a pipe delivers), boundaries around 8192
+            for _ in range(count):
+                pieces = []
+                left = n
+                while left > 0:
+                    k = min(left, rng.choice([1, 7, 512, 1024, 4096, 8191, 8192, 8193]))
+                    pieces.append(k)
+                    left -= k
+                parts.add(tuple(pieces))
+            for b in (8191, 8192, 8193):
+                if b < n:
+                    parts.add((b, n - b))
         if n >= 1000:
             # boundaries right around the chunk size
             for b in (1023, 1024, 1025):
                 if b < n:
                     parts.add((b, n - b))
         sc['partitions'] = sorted(list(p) for p in parts)
-    cs_pool = [1, 2, 3, 4, 5, 8, max(1, n - 1), max(1, n), n + 1, 1024]
+    cs_pool = [1, 2, 3, 4, 5, 8, max(1, n - 1), max(1, n), n + 1, 1024] if n < 4000 else [64, 1024, 4096, 8192, n + 1]
     sc['chunk_sizes'] = sorted(set(rng.sample(cs_pool, 3)))
     if rng.random() < 0.06 and not sc.get('entry'):
         # another stream read (and possibly failed on) in the same process just before: what this one yields must not depend on it
